@@ -1,6 +1,7 @@
 package gosym
 
 import (
+	"sync"
 	"fmt"
 	"go/types"
 	"os"
@@ -122,7 +123,10 @@ type PathModel struct {
 	Reached  []string          `json:"reached"`
 }
 
+var guardOtherZoneOnce sync.Once
+
 func NewEngine(prog *ssa.Program, opt Options, harness string) *Engine {
+	guardOtherZoneOnce.Do(guardOtherZone)
 	if opt.MaxStates == 0 {
 		opt.MaxStates = 20000
 	}
